@@ -506,16 +506,11 @@ Definition paths (ev : list event) : list (bool * path) :=
 Lemma paths_app a b : paths (a ++ b) = paths a ++ paths b.
 Proof. apply map_app. Qed.
 
-Section Cut.
-(* V is returned by push at q = p ++ s :: r'; everything else continues.
-   [vis1] is the implementation-side visit, [vis2] the all-continue visit. *)
-Variable V : verdict.
-Hypothesis V_not_nil : is_nil V = false.
-
-Lemma visit_hit q v :
+(* a non-nil verdict V from push at q: no children, pop still called *)
+Lemma visit_hit V q v : is_nil V = false ->
   visit (at_path q V) cont (children (at_path q V) cont) q v = (V, [Push q v; Pop q v]).
 Proof.
-  unfold visit. rewrite at_path_eq.
+  intros V_not_nil. unfold visit. rewrite at_path_eq.
   assert (amend Continue V = V) as -> by (destruct V; reflexivity || discriminate).
   rewrite V_not_nil. cbn [cont always amend app]. destruct V; reflexivity.
 Qed.
@@ -527,20 +522,18 @@ Proof.
   rewrite children_kids, kids_strip. reflexivity.
 Qed.
 
-(* a subtree that q does not pass through is traversed as with all-continue callbacks *)
-Lemma visit_miss p s r' s0 v0 :
-  s0 <> s ->
-  visit (at_path (p ++ s :: r') V) cont (children (at_path (p ++ s :: r') V) cont) (p ++ [s0]) v0
-  = visit cont cont (children cont cont) (p ++ [s0]) v0.
+(* V from pop at q: the children have been visited *)
+Lemma visit_hit_pop V q v :
+  visit cont (at_path q V) (children cont (at_path q V)) q v
+  = (V, Push q v :: snd (children cont cont q v) ++ [Pop q v]).
 Proof.
-  intros Hne.
-  assert (Hp : forall l, at_path (p ++ s :: r') V ((p ++ [s0]) ++ l) = Continue).
-  { intros l. apply at_path_neq. rewrite <- app_assoc. intros E. apply app_inv_head in E.
-    cbn in E. congruence. }
-  apply visit_ext.
-  - rewrite <- (app_nil_r (p ++ [s0])). apply Hp.
-  - reflexivity.
-  - apply children_ext; [intros l _; apply Hp | reflexivity].
+  assert (Hc : children cont (at_path q V) q v = children cont cont q v).
+  { apply children_ext; [reflexivity|]. intros l Hl. apply at_path_neq.
+    intros E. rewrite <- (app_nil_r q) in E at 2. apply app_inv_head in E. congruence. }
+  unfold visit. rewrite Hc, at_path_eq. cbn [cont always amend is_nil].
+  pose proof (proj1 (children_continue v q)) as He.
+  destruct (children cont cont q v) as [e ev]. cbn [fst snd] in *. subst e.
+  cbn [amend]. destruct V; reflexivity.
 Qed.
 
 (* all-continue loops end with Continue *)
@@ -552,9 +545,31 @@ Proof.
   destruct (loop _ r2). exact IH2.
 Qed.
 
+Section Cut.
+(* callbacks that return Continue everywhere except possibly at q = p ++ s :: r' *)
+Variables push1 pop1 : callback.
+Variables (p : path) (s : step) (r' : list step).
+Hypothesis off_push : forall x, x <> p ++ s :: r' -> push1 x = Continue.
+Hypothesis off_pop : forall x, x <> p ++ s :: r' -> pop1 x = Continue.
+
+(* a subtree that q does not pass through is traversed as with all-continue callbacks *)
+Lemma visit_miss s0 v0 :
+  s0 <> s ->
+  visit push1 pop1 (children push1 pop1) (p ++ [s0]) v0
+  = visit cont cont (children cont cont) (p ++ [s0]) v0.
+Proof.
+  intros Hne.
+  assert (Hq : forall l, (p ++ [s0]) ++ l <> p ++ s :: r').
+  { intros l. rewrite <- app_assoc. intros E. apply app_inv_head in E. cbn in E. congruence. }
+  apply visit_ext.
+  - rewrite <- (app_nil_r (p ++ [s0])). apply off_push, Hq.
+  - rewrite <- (app_nil_r (p ++ [s0])). apply off_pop, Hq.
+  - apply children_ext; intros l _; [apply off_push, Hq | apply off_pop, Hq].
+Qed.
+
 (* the loop over the kids, given what happens at the kid (s, v) on the path *)
-Lemma loop_cut p s r' v v' E ev1 ev2 :
-  let vis1 := fun s0 v0 => visit (at_path (p ++ s :: r') V) cont (children (at_path (p ++ s :: r') V) cont) (p ++ [s0]) v0 in
+Lemma loop_cut v v' E ev1 ev2 :
+  let vis1 := fun s0 v0 => visit push1 pop1 (children push1 pop1) (p ++ [s0]) v0 in
   let vis2 := fun s0 v0 => visit cont cont (children cont cont) (p ++ [s0]) v0 in
   vis1 s v = (E, ev1) ->
   vis2 s v' = (Continue, ev2) ->
@@ -784,34 +799,38 @@ Proof.
     symmetry. apply replk_keys. eapply in_kkid_map; eauto.
 Qed.
 
-(* the tree that an all-continue traversal sees when push returns Terminate (or
-   an error) at relative path r: at every level along r the later siblings are
-   gone, and the value at r has no children *)
-Fixpoint trm (r : list step) (t : tree) : tree :=
+(* Pruned trees: what an all-continue traversal must see to produce the same
+   callback sequence.  [leaf] is applied to the value at the end of the path:
+   [strip] when the verdict comes from push (its children are skipped), the
+   identity when it comes from pop (its children have been visited).
+
+   [trm]: Terminate / error at relative path r: at every level along r the
+   later siblings are gone. *)
+Fixpoint trm (leaf : tree -> tree) (r : list step) (t : tree) : tree :=
   match r with
   | [] => t
   | s :: r' =>
       match apply_step t s with
       | None => t
-      | Some v => trunc t s (match r' with [] => strip v | _ => trm r' v end)
+      | Some v => trunc t s (match r' with [] => leaf v | _ => trm leaf r' v end)
       end
   end.
 
-(* ... when push returns Break at r: the value at r has no children and its
-   later siblings are gone; everything above is untouched *)
-Fixpoint brk (r : list step) (t : tree) : tree :=
+(* [brk]: Break at r: the later siblings of the value at r are gone;
+   everything above is untouched *)
+Fixpoint brk (leaf : tree -> tree) (r : list step) (t : tree) : tree :=
   match r with
   | [] => t
   | s :: r' =>
       match apply_step t s with
       | None => t
-      | Some v => match r' with [] => trunc t s (strip v) | _ => repl t s (brk r' v) end
+      | Some v => match r' with [] => trunc t s (leaf v) | _ => repl t s (brk leaf r' v) end
       end
   end.
 
-Lemma trm_scalar r : trm r Scalar = Scalar.
+Lemma trm_scalar leaf r : trm leaf r Scalar = Scalar.
 Proof. destruct r; reflexivity. Qed.
-Lemma brk_scalar r : brk r Scalar = Scalar.
+Lemma brk_scalar leaf r : brk leaf r Scalar = Scalar.
 Proof. destruct r; reflexivity. Qed.
 
 Lemma assoc_in l k v : assoc l k = Some v -> In (k, v) l.
@@ -860,90 +879,117 @@ Proof.
   destruct (ch p v) as [e ev]. cbn [fst snd]. destruct e; reflexivity.
 Qed.
 
-Lemma fst_clear (x : verdict * list event) : fst (let '(e, ev) := x in (clear_break e, ev)) = clear_break (fst x).
+Lemma fst_clear (x : verdict * list event) :
+  fst (let '(e, ev) := x in (clear_break e, ev)) = clear_break (fst x).
 Proof. now destruct x. Qed.
-Lemma snd_clear (x : verdict * list event) : snd (let '(e, ev) := x in (clear_break e, ev)) = snd x.
+Lemma snd_clear (x : verdict * list event) :
+  snd (let '(e, ev) := x in (clear_break e, ev)) = snd x.
 Proof. now destruct x. Qed.
 
 Lemma paths_visit p v v' ev ev' :
   paths ev = paths ev' ->
   paths (Push p v :: ev ++ [Pop p v]) = paths (Push p v' :: ev' ++ [Pop p v']).
-Proof. intros H. cbn [paths map]. fold (paths (ev ++ [Pop p v])). fold (paths (ev' ++ [Pop p v'])).
-       now rewrite !paths_app, H. Qed.
-
-(* push returns V (Terminate or an error) at p ++ r *)
-Lemma children_trm V : is_nil V = false -> V <> Break ->
-  forall r t p, r <> [] -> wf t -> apply_steps t r <> None ->
-  fst (children (at_path (p ++ r) V) cont p t) = V /\
-  paths (snd (children (at_path (p ++ r) V) cont p t)) = paths (snd (children cont cont p (trm r t))).
 Proof.
-  intros HV HB. induction r as [|s r' IH]; intros t p Hr Hwf Hres; [congruence|].
+  intros H. cbn [paths map]. fold (paths (ev ++ [Pop p v])). fold (paths (ev' ++ [Pop p v'])).
+  now rewrite !paths_app, H.
+Qed.
+
+Lemma snoc_neq_deeper (p : path) s s' r'' : p ++ [s] <> p ++ s :: s' :: r''.
+Proof. intros E. apply app_inv_head in E. discriminate. Qed.
+
+Section Semantics.
+(* [cbs q] = the (push, pop) callbacks that misbehave only at q, where they make
+   the visit of q end with the non-nil verdict V *)
+Variable V : verdict.
+Variable cbs : path -> callback * callback.
+Variable leaf : tree -> tree.
+Hypothesis V_not_nil : is_nil V = false.
+Hypothesis leaf_scalar : leaf Scalar = Scalar.
+Hypothesis off : forall q x, x <> q -> fst (cbs q) x = Continue /\ snd (cbs q) x = Continue.
+Hypothesis hit : forall q v, exists ev1 ev2,
+  visit (fst (cbs q)) (snd (cbs q)) (children (fst (cbs q)) (snd (cbs q))) q v = (V, ev1) /\
+  visit cont cont (children cont cont) q (leaf v) = (Continue, ev2) /\
+  paths ev1 = paths ev2.
+
+Lemma children_trm : V <> Break ->
+  forall r t p, r <> [] -> wf t -> apply_steps t r <> None ->
+  fst (children (fst (cbs (p ++ r))) (snd (cbs (p ++ r))) p t) = V /\
+  paths (snd (children (fst (cbs (p ++ r))) (snd (cbs (p ++ r))) p t))
+  = paths (snd (children cont cont p (trm leaf r t))).
+Proof.
+  intros HB. induction r as [|s r' IH]; intros t p Hr Hwf Hres; [congruence|].
   cbn [apply_steps] in Hres. destruct (apply_step t s) as [v|] eqn:Es; [|congruence].
   pose proof (apply_step_in _ _ _ Es) as Hin.
   inversion Hwf as [t' Hnd Hkids]; subst t'.
   cbn [trm]. rewrite Es. rewrite !children_kids, fst_clear, !snd_clear.
-  set (v' := match r' return tree with nil => strip v | cons _ _ => trm r' v end).
+  set (v' := match r' return tree with nil => leaf v | cons _ _ => trm leaf r' v end).
   assert (Hu : unk_ok s v').
-  { intros ->. apply apply_step_unknown in Es. subst v. unfold v'. destruct r'; [reflexivity | apply trm_scalar]. }
+  { intros ->. apply apply_step_unknown in Es. subst v. unfold v'.
+    destruct r'; [exact leaf_scalar | apply trm_scalar]. }
   rewrite (kids_trunc t s v v' Hin Hu).
+  set (q := p ++ s :: r').
   assert (H12 : exists ev1 ev2,
-    visit (at_path (p ++ s :: r') V) cont (children (at_path (p ++ s :: r') V) cont) (p ++ [s]) v = (V, ev1) /\
+    visit (fst (cbs q)) (snd (cbs q)) (children (fst (cbs q)) (snd (cbs q))) (p ++ [s]) v = (V, ev1) /\
     visit cont cont (children cont cont) (p ++ [s]) v' = (Continue, ev2) /\ paths ev1 = paths ev2).
   { destruct r' as [|s' r''].
-    - exists [Push (p ++ [s]) v; Pop (p ++ [s]) v], [Push (p ++ [s]) (strip v); Pop (p ++ [s]) (strip v)].
-      split; [now apply visit_hit | split; [apply visit_strip | reflexivity]].
-    - assert (Hq : p ++ s :: s' :: r'' = (p ++ [s]) ++ s' :: r'') by now rewrite <- app_assoc.
+    - apply (hit (p ++ [s]) v).
+    - assert (Hq : q = (p ++ [s]) ++ s' :: r'') by (unfold q; now rewrite <- app_assoc).
       destruct (IH v (p ++ [s])) as [He Hp]; [discriminate | now apply (Hkids s v) | exact Hres |].
       rewrite <- Hq in He, Hp.
+      destruct (off q (p ++ [s]) (snoc_neq_deeper p s s' r'')) as [Hpu Hpo].
       eexists _, _. split; [|split].
-      + rewrite visit_through; [rewrite He; reflexivity | | reflexivity].
-        apply at_path_neq. intros E. rewrite <- (app_nil_r (p ++ [s])) in E. rewrite Hq in E.
-        apply app_inv_head in E. discriminate.
+      + rewrite visit_through by assumption. rewrite He. reflexivity.
       + apply visit_continue. apply children_continue.
       + apply paths_visit. exact Hp. }
   destruct H12 as (ev1 & ev2 & H1 & H2 & Hp).
-  destruct (loop_cut V p s r' v v' V ev1 ev2 H1 H2 Hp (kids t) Hin Hnd) as [He Hl].
-  rewrite HV in Hl. rewrite He. split; [destruct V; try reflexivity; congruence | exact Hl].
+  destruct (loop_cut (fst (cbs q)) (snd (cbs q)) p s r'
+              (fun x Hx => proj1 (off q x Hx)) (fun x Hx => proj2 (off q x Hx))
+              v v' V ev1 ev2 H1 H2 Hp (kids t) Hin Hnd) as [He Hl].
+  rewrite V_not_nil in Hl. rewrite He. split; [destruct V; try reflexivity; congruence | exact Hl].
 Qed.
 
-(* push returns Break at p ++ r *)
-Lemma children_brk :
+Lemma children_brk : V = Break ->
   forall r t p, r <> [] -> wf t -> apply_steps t r <> None ->
-  fst (children (at_path (p ++ r) Break) cont p t) = Continue /\
-  paths (snd (children (at_path (p ++ r) Break) cont p t)) = paths (snd (children cont cont p (brk r t))).
+  fst (children (fst (cbs (p ++ r))) (snd (cbs (p ++ r))) p t) = Continue /\
+  paths (snd (children (fst (cbs (p ++ r))) (snd (cbs (p ++ r))) p t))
+  = paths (snd (children cont cont p (brk leaf r t))).
 Proof.
-  induction r as [|s r' IH]; intros t p Hr Hwf Hres; [congruence|].
+  intros HB. induction r as [|s r' IH]; intros t p Hr Hwf Hres; [congruence|].
   cbn [apply_steps] in Hres. destruct (apply_step t s) as [v|] eqn:Es; [|congruence].
   pose proof (apply_step_in _ _ _ Es) as Hin.
   inversion Hwf as [t' Hnd Hkids]; subst t'.
   cbn [brk]. rewrite Es. rewrite children_kids, fst_clear, snd_clear.
+  set (q := p ++ s :: r').
   destruct r' as [|s' r''].
-  - (* Break at this kid: its children and the later kids are skipped *)
-    assert (Hu : unk_ok s (strip v)).
+  - (* Break at this kid: the later kids are skipped, then Break is cleared *)
+    assert (Hu : unk_ok s (leaf v)).
     { intros ->. apply apply_step_unknown in Es. now subst v. }
-    rewrite children_kids, snd_clear, (kids_trunc t s v (strip v) Hin Hu).
-    destruct (loop_cut Break p s [] v (strip v) Break _ _
-                (visit_hit Break eq_refl (p ++ [s]) v) (visit_strip (p ++ [s]) v) eq_refl (kids t) Hin Hnd) as [He Hl].
-    cbn [is_nil] in Hl. rewrite He. split; [reflexivity | exact Hl].
+    rewrite children_kids, snd_clear, (kids_trunc t s v (leaf v) Hin Hu).
+    destruct (hit (p ++ [s]) v) as (ev1 & ev2 & H1 & H2 & Hp).
+    destruct (loop_cut (fst (cbs q)) (snd (cbs q)) p s []
+                (fun x Hx => proj1 (off q x Hx)) (fun x Hx => proj2 (off q x Hx))
+                v (leaf v) V ev1 ev2 H1 H2 Hp (kids t) Hin Hnd) as [He Hl].
+    rewrite V_not_nil in Hl. rewrite He, HB. split; [reflexivity | exact Hl].
   - (* Break further down: cleared below, this level continues *)
-    assert (Hq : p ++ s :: s' :: r'' = (p ++ [s]) ++ s' :: r'') by now rewrite <- app_assoc.
+    assert (Hq : q = (p ++ [s]) ++ s' :: r'') by (unfold q; now rewrite <- app_assoc).
     destruct (IH v (p ++ [s])) as [He Hp]; [discriminate | now apply (Hkids s v) | exact Hres |].
     rewrite <- Hq in He, Hp.
-    assert (Hu : unk_ok s (brk (s' :: r'') v)).
+    assert (Hu : unk_ok s (brk leaf (s' :: r'') v)).
     { intros ->. apply apply_step_unknown in Es. subst v. apply brk_scalar. }
     rewrite children_kids, snd_clear, (kids_repl t s v _ Hin Hu).
-    assert (H1 : visit (at_path (p ++ s :: s' :: r'') Break) cont
-                   (children (at_path (p ++ s :: s' :: r'') Break) cont) (p ++ [s]) v
-                 = (Continue, Push (p ++ [s]) v :: snd (children (at_path (p ++ s :: s' :: r'') Break) cont (p ++ [s]) v)
+    destruct (off q (p ++ [s]) (snoc_neq_deeper p s s' r'')) as [Hpu Hpo].
+    assert (H1 : visit (fst (cbs q)) (snd (cbs q)) (children (fst (cbs q)) (snd (cbs q))) (p ++ [s]) v
+                 = (Continue, Push (p ++ [s]) v :: snd (children (fst (cbs q)) (snd (cbs q)) (p ++ [s]) v)
                                 ++ [Pop (p ++ [s]) v])).
-    { rewrite visit_through; [now rewrite He | | reflexivity].
-      apply at_path_neq. intros E. rewrite <- (app_nil_r (p ++ [s])) in E. rewrite Hq in E.
-      apply app_inv_head in E. discriminate. }
-    destruct (loop_cut Break p s (s' :: r'') v (brk (s' :: r'') v) Continue _ _ H1
+    { rewrite visit_through by assumption. now rewrite He. }
+    destruct (loop_cut (fst (cbs q)) (snd (cbs q)) p s (s' :: r'')
+                (fun x Hx => proj1 (off q x Hx)) (fun x Hx => proj2 (off q x Hx))
+                v (brk leaf (s' :: r'') v) Continue _ _ H1
                 (visit_continue _ _ _ (proj1 (children_continue _ _))) (paths_visit _ _ _ _ _ Hp)
                 (kids t) Hin Hnd) as [He' Hl].
     cbn [is_nil] in Hl. rewrite He'. split; [reflexivity | exact Hl].
 Qed.
+End Semantics.
 
 Definition final (e : verdict) : verdict := match e with Break | Terminate => Continue | _ => e end.
 
@@ -953,35 +999,118 @@ Lemma range_unfold push pop root :
    snd (visit push pop (children push pop) [SRoot] root)).
 Proof. unfold range, final. now destruct (visit push pop (children push pop) [SRoot] root). Qed.
 
+(* the two instances: verdict from push / from pop *)
+Definition on_push (V : verdict) (q : path) : callback * callback := (at_path q V, cont).
+Definition on_pop (V : verdict) (q : path) : callback * callback := (cont, at_path q V).
+Definition keep (t : tree) : tree := t.
+
+Lemma on_push_off V q x : x <> q -> fst (on_push V q) x = Continue /\ snd (on_push V q) x = Continue.
+Proof. intros H. split; [now apply at_path_neq | reflexivity]. Qed.
+Lemma on_pop_off V q x : x <> q -> fst (on_pop V q) x = Continue /\ snd (on_pop V q) x = Continue.
+Proof. intros H. split; [reflexivity | now apply at_path_neq]. Qed.
+
+Lemma on_push_hit V : is_nil V = false -> forall q v, exists ev1 ev2,
+  visit (fst (on_push V q)) (snd (on_push V q)) (children (fst (on_push V q)) (snd (on_push V q))) q v = (V, ev1) /\
+  visit cont cont (children cont cont) q (strip v) = (Continue, ev2) /\ paths ev1 = paths ev2.
+Proof.
+  intros HV q v. eexists _, _. split; [apply visit_hit; exact HV | split; [apply visit_strip | reflexivity]].
+Qed.
+Lemma on_pop_hit V : forall q v, exists ev1 ev2,
+  visit (fst (on_pop V q)) (snd (on_pop V q)) (children (fst (on_pop V q)) (snd (on_pop V q))) q v = (V, ev1) /\
+  visit cont cont (children cont cont) q (keep v) = (Continue, ev2) /\ paths ev1 = paths ev2.
+Proof.
+  intros q v. eexists _, _. split; [apply visit_hit_pop | split].
+  - apply visit_continue. apply children_continue.
+  - reflexivity.
+Qed.
+
+Section Top.
+Variable V : verdict.
+Variable cbs : path -> callback * callback.
+Variable leaf : tree -> tree.
+Hypothesis V_not_nil : is_nil V = false.
+Hypothesis leaf_scalar : leaf Scalar = Scalar.
+Hypothesis off : forall q x, x <> q -> fst (cbs q) x = Continue /\ snd (cbs q) x = Continue.
+Hypothesis hit : forall q v, exists ev1 ev2,
+  visit (fst (cbs q)) (snd (cbs q)) (children (fst (cbs q)) (snd (cbs q))) q v = (V, ev1) /\
+  visit cont cont (children cont cont) q (leaf v) = (Continue, ev2) /\
+  paths ev1 = paths ev2.
+
+Lemma range_trm r root : V <> Break ->
+  r <> [] -> wf root -> apply_steps root r <> None ->
+  fst (range (fst (cbs (SRoot :: r))) (snd (cbs (SRoot :: r))) root) = final V /\
+  paths (snd (range (fst (cbs (SRoot :: r))) (snd (cbs (SRoot :: r))) root))
+  = paths (snd (range cont cont (trm leaf r root))).
+Proof.
+  intros HB Hr Hwf Hres.
+  destruct (children_trm V cbs leaf V_not_nil leaf_scalar off hit HB r root [SRoot] Hr Hwf Hres) as [He Hp].
+  cbn [app] in He, Hp. rewrite !range_unfold. cbn [fst snd].
+  destruct (off (SRoot :: r) [SRoot]) as [Hpu Hpo]; [intros E; inversion E; congruence|].
+  rewrite visit_through by assumption.
+  rewrite visit_continue by apply children_continue. cbn [fst snd]. rewrite He.
+  split; [reflexivity | now apply paths_visit].
+Qed.
+
+Lemma range_brk r root : V = Break ->
+  r <> [] -> wf root -> apply_steps root r <> None ->
+  fst (range (fst (cbs (SRoot :: r))) (snd (cbs (SRoot :: r))) root) = Continue /\
+  paths (snd (range (fst (cbs (SRoot :: r))) (snd (cbs (SRoot :: r))) root))
+  = paths (snd (range cont cont (brk leaf r root))).
+Proof.
+  intros HB Hr Hwf Hres.
+  destruct (children_brk V cbs leaf V_not_nil leaf_scalar off hit HB r root [SRoot] Hr Hwf Hres) as [He Hp].
+  cbn [app] in He, Hp. rewrite !range_unfold. cbn [fst snd].
+  destruct (off (SRoot :: r) [SRoot]) as [Hpu Hpo]; [intros E; inversion E; congruence|].
+  rewrite visit_through by assumption.
+  rewrite visit_continue by apply children_continue. cbn [fst snd]. rewrite He.
+  split; [reflexivity | now apply paths_visit].
+Qed.
+End Top.
+
+(* ----- the named theorems ----- *)
 Theorem terminate_semantics V r root :
   is_nil V = false -> V <> Break ->
   r <> [] -> wf root -> apply_steps root r <> None ->
   fst (range (at_path (SRoot :: r) V) cont root) = final V /\
-  paths (snd (range (at_path (SRoot :: r) V) cont root)) = paths (snd (range cont cont (trm r root))).
+  paths (snd (range (at_path (SRoot :: r) V) cont root)) = paths (snd (range cont cont (trm strip r root))).
 Proof.
-  intros HV HB Hr Hwf Hres.
-  destruct (children_trm V HV HB r root [SRoot] Hr Hwf Hres) as [He Hp]. cbn [app] in He, Hp.
-  rewrite !range_unfold. cbn [fst snd].
-  rewrite visit_through; [| apply at_path_neq; intros E; inversion E; congruence | reflexivity].
-  rewrite visit_continue by apply children_continue. cbn [fst snd]. rewrite He.
-  split; [reflexivity | now apply paths_visit].
+  intros HV HB. apply (range_trm V (on_push V) strip HV eq_refl (on_push_off V) (on_push_hit V HV) r root HB).
+Qed.
+
+Theorem terminate_pop_semantics V r root :
+  is_nil V = false -> V <> Break ->
+  r <> [] -> wf root -> apply_steps root r <> None ->
+  fst (range cont (at_path (SRoot :: r) V) root) = final V /\
+  paths (snd (range cont (at_path (SRoot :: r) V) root)) = paths (snd (range cont cont (trm keep r root))).
+Proof.
+  intros HV HB. apply (range_trm V (on_pop V) keep HV eq_refl (on_pop_off V) (on_pop_hit V) r root HB).
 Qed.
 
 Theorem break_semantics r root :
   r <> [] -> wf root -> apply_steps root r <> None ->
   fst (range (at_path (SRoot :: r) Break) cont root) = Continue /\
-  paths (snd (range (at_path (SRoot :: r) Break) cont root)) = paths (snd (range cont cont (brk r root))).
+  paths (snd (range (at_path (SRoot :: r) Break) cont root)) = paths (snd (range cont cont (brk strip r root))).
 Proof.
-  intros Hr Hwf Hres.
-  destruct (children_brk r root [SRoot] Hr Hwf Hres) as [He Hp]. cbn [app] in He, Hp.
-  rewrite !range_unfold. cbn [fst snd].
-  rewrite visit_through; [| apply at_path_neq; intros E; inversion E; congruence | reflexivity].
-  rewrite visit_continue by apply children_continue. cbn [fst snd]. rewrite He.
-  split; [reflexivity | now apply paths_visit].
+  apply (range_brk Break (on_push Break) strip eq_refl eq_refl (on_push_off Break) (on_push_hit Break eq_refl) r root eq_refl).
 Qed.
 
-(* a non-nil verdict from the push of the root step: nothing else is visited *)
-Theorem root_verdict_semantics V root :
+Theorem break_pop_semantics r root :
+  r <> [] -> wf root -> apply_steps root r <> None ->
+  fst (range cont (at_path (SRoot :: r) Break) root) = Continue /\
+  paths (snd (range cont (at_path (SRoot :: r) Break) root)) = paths (snd (range cont cont (brk keep r root))).
+Proof.
+  apply (range_brk Break (on_pop Break) keep eq_refl eq_refl (on_pop_off Break) (on_pop_hit Break) r root eq_refl).
+Qed.
+
+(* a non-nil verdict from the push of the root step: nothing else is visited;
+   from its pop: everything has been visited *)
+Theorem root_push_verdict V root :
   is_nil V = false ->
   range (at_path [SRoot] V) cont root = (final V, [Push [SRoot] root; Pop [SRoot] root]).
 Proof. intros HV. rewrite range_unfold, visit_hit by exact HV. reflexivity. Qed.
+
+Theorem root_pop_verdict V root :
+  range cont (at_path [SRoot] V) root = (final V, snd (range cont cont root)).
+Proof.
+  rewrite !range_unfold, visit_hit_pop, visit_continue by apply children_continue. reflexivity.
+Qed.
